@@ -149,6 +149,17 @@ CHECKS["C16"] = {
     ],
 }
 
+CHECKS["C01"] = {
+    "pkg": "c01",
+    "level": "exploration",
+    "technique": "model-based generation of concurrent transaction programs with RPC-level interleaving gates and tolerated faults on a simulated cluster; oracle = history invariants (snapshot isolation, write-write exclusion, locking reads, inserts, external consistency) checked against the store's raw MVCC truth",
+    "level_text": "Thousands of generated programs per run (2-4 transactions, all client APIs, both transaction kinds, region layouts, batch sizes, leader moves, region errors, and gates that run another transaction's step while a prewrite/commit/lock RPC is parked) are executed on an in-process cluster with a virtual clock; afterwards all locks are expired and resolved and every recorded read, acknowledgement and commit interval is checked against the final MVCC records. Interleavings are owned at RPC granularity, not at instruction granularity; absence of violations is not a proof.",
+    "level_note": "Trusted: mocktikv (itself checked by C12) and TiDB's unistore as store implementations; the history checker (harness/sim/history.go); locks are expired by advancing the virtual TSO clock.",
+    "tests": [
+        {"name": "TestHistories", "quick": 600, "thorough": 6000, "shards": 16, "timeout_q": 400},
+    ],
+}
+
 # properties without a registered check, with the reason (kept current by hand)
 NOT_CLAIMED = {}
 
